@@ -107,8 +107,8 @@ PROPS["C10"] = {
 PROPS["C12"] = {
     "heap": True,
     "rule": "k terminal shapes (8x8, left and right pins of one class, insideOffset 2) on distinct cells of a small grid (spacing 20), joined as a star through one junction placed at every free cell centre, or given as a bare terminal list; hyperedge improvement off / moving / moving+adding+deleting; full rerouting registered by junction, by terminal list, or not at all; optionally a further transaction that moves a terminal; optional obstacle; each under ascending and descending heap addresses (the rerouter iterates pointer-ordered sets). Oracle: connectors+junctions form one tree, its leaves are exactly the original terminal shapes, every connector has both ends attached, routes run between pins of the attached shape / the junction position or recommendedPosition, new/deleted lists consistent with the live objects. Non-trivial = rerouting registered or add/delete improvement enabled.",
-    "bounds": {"quick": "k=3 on 3x3 cells x 36 configurations; k=3 on 4x4 cells x 6", "thorough": "k=3 on 4x4 x 36, with obstacle; k=4 on 3x3 x 36; k=4 on 4x4 x 6"},
-    "assumptions": ["the ConnEnd returned right after a reroute has no active pin yet, so route ends are compared with the attached shape's pins", "junctions listed as deleted but not yet freed are ignored"],
+    "bounds": {"quick": "k=3 on 3x3 cells x 36 configurations; k=3 on 4x4 cells x 6; k=4 on 3x3 x 36", "thorough": "k=3 on 4x4 x 36; k=3 and k=4 on 3x3 with obstacle; k=4 on 4x4 x 36; k=5 on 3x3 x 36"},
+    "assumptions": ["the ConnEnd returned right after a reroute has no active pin yet, so route ends are compared with the attached shape's pins", "junctions and connectors that the last transaction lists as deleted (by rerouting or by improvement) but that the router has not freed yet are not part of the hyperedge", "the follow-up move takes the first terminal to the first free neighbouring cell"],
     "parts": [{"name": "hyperedge", "src": "c12_hyperedge.cpp", "quick": T(120, 20, [], 100), "thorough": T(1700, 30, [], 100)}],
 }
 PROPS["C11"] = {
